@@ -827,6 +827,18 @@ pub fn judge(w: &World, run: &Run, focus: Option<&str>) -> (Verdict, RunInfo) {
             ));
     }
 
+    if obs.const_values != robs.const_values || obs.pending_annotations != robs.pending_annotations {
+        soft!(info, focus, viol(
+            "R3",
+            C18,
+            "context-side-tables",
+            format!(
+                "the analysis context differs from the one textual inclusion gives: {} constant values (expected {}), {} pending annotations (expected {})",
+                obs.const_values.len(), robs.const_values.len(), obs.pending_annotations, robs.pending_annotations
+            ),
+        ));
+    }
+
     // ------------------------------------------------------------------ R4 diagnostics per file
     let order = m.dfs();
     fn shape_ok(m: &Model, i: usize, l: &ListTree) -> Result<(), String> {
